@@ -183,3 +183,29 @@ def abstraction_values(program, prog, params):
             return None
         out[str(sym)] = p
     return out
+
+
+class SoftTimeout(BaseException):
+    """raised by soft_timeout inside a worker; BaseException so that Polar's own 'except Exception' cannot swallow it"""
+
+
+class soft_timeout:
+    """time-box an optional, expensive step inside run_case (the harness watchdog remains the hard limit)"""
+
+    def __init__(self, seconds):
+        self.seconds = max(1, int(seconds))
+
+    def __enter__(self):
+        import signal
+
+        def handler(signum, frame):
+            raise SoftTimeout()
+        self._old = signal.signal(signal.SIGALRM, handler)
+        signal.alarm(self.seconds)
+        return self
+
+    def __exit__(self, et, ev, tb):
+        import signal
+        signal.alarm(0)
+        signal.signal(signal.SIGALRM, self._old)
+        return False
